@@ -15,6 +15,10 @@ type EvSpec struct {
 	Tags      [][]string `json:"tags,omitempty"`
 	Content   string     `json:"content,omitempty"`
 	Sign      bool       `json:"sign,omitempty"`
+	// ForceID: the event carries this id instead of its own (nothing below the
+	// WebSocket layer verifies ids: to a middleware two different events may
+	// come with one id)
+	ForceID string `json:"force_id,omitempty"`
 
 	ev *mocrelay.Event
 }
@@ -23,6 +27,9 @@ type EvSpec struct {
 func (s *EvSpec) Event() *mocrelay.Event {
 	if s.ev == nil {
 		s.ev = ref.MkEvent(s.Author, s.Kind, s.CreatedAt, s.Tags, s.Content, s.Sign)
+		if s.ForceID != "" {
+			s.ev.ID = s.ForceID
+		}
 	}
 	return s.ev
 }
